@@ -407,7 +407,7 @@ impl W {
                 let mut kept: Vec<roto::TypedFunc<NoCtx, fn(i32) -> i32>> = Vec::new();
                 for i in 0..cycles {
                     let v = 1 + ((t + i) % 3) as i32;
-                    let mut pkg = host::compile(&rt, &c11::script(v))?;
+                    let mut pkg = c11::compile_version(&rt, v)?;
                     let f = pkg.get_function::<fn(i32) -> i32>("f").map_err(|e| format!("{e}"))?;
                     let g = f.clone();
                     drop(pkg);
